@@ -481,8 +481,7 @@ pzgstrf_MemInit(int_t n, int_t annz, superlumt_options_t *superlumt_options,
 int_t
 pzgstrf_WorkInit(int_t n, int_t panel_size, int_t **iworkptr, doublecomplex **dworkptr)
 {
-    int_t  isize, dsize, extra;
-    doublecomplex *old_ptr;
+    int_t  isize, dsize;
     int_t    maxsuper = sp_ienv(3),
            rowblk   = sp_ienv(4);
 
@@ -504,29 +503,12 @@ pzgstrf_WorkInit(int_t n, int_t panel_size, int_t **iworkptr, doublecomplex **dw
     if ( whichspace == SYSTEM )
 	*dworkptr = (doublecomplex *) SUPERLU_MALLOC((size_t) dsize);
     else {
-	    *dworkptr = (doublecomplex *) zuser_malloc(dsize, TAIL);
-	    if ( NotDoubleAlign(*dworkptr) ) {
-	        old_ptr = *dworkptr;
+	    /* One request with room to align the array inside it.  (Moving the pointer down and
+	       lowering stack.top2 in a second critical section let a worker that started in between
+	       obtain an array overlapping the bytes the pointer was moved by.) */
+	    *dworkptr = (doublecomplex *) zuser_malloc(dsize + sizeof(double), TAIL);
+	    if ( *dworkptr && NotDoubleAlign(*dworkptr) )
 	        *dworkptr = (doublecomplex*) DoubleAlign(*dworkptr);
-	        *dworkptr = (doublecomplex*) ((double*)*dworkptr - 1);
-	        extra = (char*)old_ptr - (char*)*dworkptr;
-#if ( DEBUGlevel>=1 )
-	        printf("pzgstrf_WorkInit: not aligned, extra" IFMT "\n", extra);
-#endif	    
-#if ( MACH==PTHREAD ) /* Use pthread ... */
-        pthread_mutex_lock( &stack.lock );
-#elif ( MACH==OPENMP ) /* Use openMP ... */
-#pragma omp critical ( STACK_LOCK )
-#endif
-              {
-	        stack.top2 -= extra;
-	        stack.used += extra;
-	        SLU_VERIF_EV("StkAdjust", SLU_VERIF_SELF(), (long) TAIL, (long) extra, (long) stack.size, (long) stack.used, (long) stack.top1, (long) stack.top2);
-	      }
-#if ( MACH==PTHREAD ) /* Use pthread ... */
-        pthread_mutex_unlock( &stack.lock );
-#endif
-	    }
     } /* else */
     if ( ! *dworkptr ) {
 	printf("malloc fails for local dworkptr[] ... dsize " IFMT "\n", dsize);
